@@ -703,9 +703,23 @@ class Program:
 # data-flow helpers (intra-procedural, flow-insensitive over definitions)
 # ---------------------------------------------------------------------------
 
-def operand_sources(body, op, max_nodes=400):
+def _deref_writes(body):
+    """local -> assign events that write *through* the pointer held in the local (`(*_l).f = ..`): they do not
+    define the local but they do decide what it points at (box/vec literals are built this way)."""
+    dw = getattr(body, "_deref_writes", None)
+    if dw is None:
+        dw = defaultdict(list)
+        for e in body.events:
+            if e.kind == "assign" and e.data["p"][1] and e.data["p"][1][0] == "*":
+                dw[e.data["p"][0]].append(e)
+        body._deref_writes = dw
+    return dw
+
+
+def operand_sources(body, op, max_nodes=400, through_ptr=False):
     """Backward slice over definitions: all events (calls/assigns) and argument locals that can
-    contribute to the value of `op`. Returns (events, arg_locals, consts)."""
+    contribute to the value of `op`. Returns (events, arg_locals, consts).
+    through_ptr: also follow writes made through a pointer held in a local on the slice."""
     evs, args, consts = [], set(), []
     seen = set()
     work = []
@@ -729,7 +743,7 @@ def operand_sources(body, op, max_nodes=400):
         n += 1
         if 1 <= l <= body.argc:
             args.add(l)
-        for e in body.defs.get(l, []):
+        for e in list(body.defs.get(l, [])) + (list(_deref_writes(body).get(l, [])) if through_ptr else []):
             evs.append(e)
             if e.kind == "call":
                 for a in e.args:
